@@ -496,6 +496,10 @@ def e2e_leg(ctx, auth_name, connections, load_groups=()):
       * correspondence: Canon.relay -- the authorization value equals HMAC(key, Canon.as_sig_input of
         the request as received); without a key / exempt: forwarded as it came.
     A request may carry "host": None (no Host header is written) and "version" ("HTTP/1.0").
+    A connection may carry "host_closes_after": "reply" | "no_reply" (the mock host closes the upstream connection
+    after each reply / without replying; the client keeps its connection) and a request "pause_before_ms".
+    Whatever the host receives in such a history is judged like any other request: signed with a valid MAC over
+    what it received -- or not relayed at all.
     `load_groups`: list of {"initial_key": key, "requests": [..]}: ONE scenario per group in which every request
     travels on its own client connection, all connections run concurrently and meet at a barrier before
     sending (a burst: the key-keeper actor's queue fills up), judged like any other request.
@@ -532,15 +536,24 @@ def e2e_leg(ctx, auth_name, connections, load_groups=()):
             hs, raw = raw_of(r, rid)
             sent[rid] = {"key": key, "client_auth": [v for n, v in hs if n.lower() == auth_name], "sent": r, "conn": ci}
             ka = r.get("key_after", "same")
-            if ka == "same":
-                reqs.append(e2e.req(raw))
-            elif ka is None:
-                reqs.append(e2e.req(raw, ops_after=[{"op": "clear_key"}]))
+            knobs = {}
+            if r.get("pause_before_ms"):      # a stimulus (lets the proxy notice a closed upstream connection), nothing is asserted about time
+                knobs["ops_before"] = [{"op": "sleep_ms", "ms": r["pause_before_ms"]}]
+            if ka is None:
+                knobs["ops_after"] = [{"op": "clear_key"}]
                 key = None
-            else:
-                reqs.append(e2e.req(raw, ops_after=[{"op": "update_key", "guid": ka["guid"], "key": ka["key"], "incarnation": nid}]))
+            elif ka != "same":
+                knobs["ops_after"] = [{"op": "update_key", "guid": ka["guid"], "key": ka["key"], "incarnation": nid}]
                 key = ka
-        scs.append(e2e.scenario("c04-%d" % ci, [e2e.conn(reqs, audit=e2e.audit(e2e.WIRESERVER, uid=0))], key=c["initial_key"]))
+            reqs.append(e2e.req(raw, **knobs))
+        sk = {}
+        if c.get("host_closes_after"):
+            # upstream fault history: the mock host closes the upstream connection after every reply (or, "no_reply",
+            # without replying) while the client keeps its connection and goes on sending
+            rep = {"close_without_reply": True, "sticky": True} if c["host_closes_after"] == "no_reply" else \
+                  {"status": 200, "body": "ok", "close": True, "sticky": True}
+            sk["replies"] = {e2e.WIRESERVER: [rep]}
+        scs.append(e2e.scenario("c04-%d" % ci, [e2e.conn(reqs, audit=e2e.audit(e2e.WIRESERVER, uid=0))], key=c["initial_key"], **sk))
     results = e2e.run_scenarios(ctx, scs, timeout=900)
     calls, seen = [], []
     for r in results:
@@ -607,6 +620,19 @@ def gen_e2e_connections(rng, auth_name, n_single, n_multi):
         if n.lower() not in hop:
             conns.append({"initial_key": K1, "requests": [{"method": b"POST", "target": b"/machine?comp=x", "headers": [(n, vs[0])],
                                                            "body": b"abc", "chunked": None}]})
+    # upstream fault histories: the host closes the upstream connection after each reply (idle keep-alive timeout) or
+    # without replying; the client keeps its connection and sends further non-exempt requests, with and without a pause
+    for mode in ("reply", "no_reply"):
+        for pause in (0, 40, 150):
+            rs = []
+            for j in range(4):
+                r = one(False, False)
+                r["pause_before_ms"] = pause if j else 0
+                rs.append(r)
+            conns.append({"initial_key": K1, "host_closes_after": mode, "requests": rs})
+    rs = [dict(one(False, False), pause_before_ms=60 if j else 0) for j in range(3)]
+    rs[1]["key_after"] = K2                     # ... and the key is rotated while the upstream connection is gone
+    conns.append({"initial_key": K1, "host_closes_after": "reply", "requests": rs})
     # clients that send no Host header (HTTP/1.0, hand-written HTTP/1.1): what the host receives must still be what was signed
     for ver in ("HTTP/1.0", "HTTP/1.1"):
         for m, t, body in ((b"GET", b"/machine?comp=goalstate", b""), (b"POST", b"/machine?comp=x", b"abc"), (b"PUT", b"/upload?a=1", b"xyz")):
